@@ -11,7 +11,6 @@
      MagicMemoryCL.up_mem                         len_==0 means the full data width, write data is
                                                   req.data[0:len_<<3], write/inv/flush responses carry len 0 *)
 From PV Require Import Base.Prelude.
-(* -- *)
 Open Scope Z_scope.
 
 (* ------------------------------------------------------------------ memory *)
